@@ -29,7 +29,9 @@ class ThreadHarness:
     """threads: list of "kind:origin[:opt]"  kind in req | hold | early | close-pool ; opt 'w' = run before the threads start (warm-up)"""
     horizon = 200000
 
-    def __init__(self, ct, threads, max_connections=1, max_keepalive=None, granularity="line", framing="cl", server_drop=None, keepalive_expiry=None):
+    def __init__(self, ct, threads, max_connections=1, max_keepalive=None, granularity="line", framing="cl", server_drop=None, keepalive_expiry=None,
+                 prefix="C08"):
+        self.prefix = prefix            # C04 runs the same harness for its own oracle (connection limit under threads)
         self.keepalive_expiry = keepalive_expiry
         self.ct = ct
         self.threads = threads
@@ -73,12 +75,14 @@ class ThreadHarness:
         def monitor(world, label):
             # judged outside the pool lock only (inside it the list is legitimately in flux)
             lk = pool._optional_thread_lock._lock
-            if lk.owner is not None:
-                return
             conns = list(pool._connections)
+            # membership is recorded at every point (a connection may enter and leave the list within one critical section of
+            # another thread, while its owner already uses it); the limit itself is judged outside the pool lock only
             for c in conns:
                 if not any(c is e for e in ever):
                     ever.append(c)
+            if lk.owner is not None:
+                return
             if len(conns) > N and "list" not in mon:
                 mon["list"] = f"pool holds {len(conns)} connections > max_connections={N} at {label}: {conns}"
             evicted = set()
@@ -101,7 +105,8 @@ class ThreadHarness:
 
             def mk(kind=kind, url=url, tok=tok, origin_=origin):
                 def prog():
-                    if kind == "req":
+                    if kind in ("req", "fail"):
+                        # "fail": the origin refuses the TCP connection (ConnectError is the expected result)
                         r = pool.request("GET", url)
                         return (r.status, r.content)
                     if kind == "hold":
@@ -120,6 +125,9 @@ class ThreadHarness:
                         return (200, None)
                     raise ValueError(kind)
                 return prog
+            if kind == "fail":
+                # "fail:x" refused at once; "fail:x:g1" refused once one other thread is queued in the pool (a slow connect failure)
+                w.env.refuse[f"{origin}.example"] = next((int(o[1:]) for o in opts if o.startswith("g")), 0)
             if kind == "held":
                 warm.append((f"t{i}", kind, f"{tok}@{origin}", None))
             elif "w" in opts:
@@ -131,8 +139,12 @@ class ThreadHarness:
         sig = {"harness": "threads", "ct": ct}
         desc = f"ct={ct} threads={self.threads} N={self.mc} keepalive={self.mk} granularity={self.granularity}"
 
+        own_kinds = {"C04": ("limit-list", "limit-open"), "C06": ("stream-left-open", "evicted-stream-open")}.get(self.prefix)
+
         def viol(kind, msg, **x):
-            ex.violations.append(Violation("C08." + kind, f"{msg} | {desc} preempted_in={w.preempted_in} switches={w.switch_log[-12:]}",
+            if own_kinds is not None and kind not in own_kinds:
+                return          # run for another property's oracle: only that oracle speaks (the rest is C08's business)
+            ex.violations.append(Violation(self.prefix + "." + kind, f"{msg} | {desc} preempted_in={w.preempted_in} switches={w.switch_log[-12:]}",
                                            dict(sig, kind=kind, **x)))
         held_open = []
         for name, kind, tok, fn in warm:
@@ -154,8 +166,9 @@ class ThreadHarness:
             except Exception as e:
                 viol("warm-up", f"warm-up {name} raised {exc_class(e)}: {e}")
         if self.server_drop:
+            drops = [self.server_drop] if isinstance(self.server_drop, str) else list(self.server_drop)
             for t in w.net.transports:
-                if t.host.startswith(self.server_drop + ".") and not t.closed:
+                if any(t.host.startswith(d + ".") for d in drops) and not t.closed:
                     t.shutdown()
         w.run()
         results = {t.name: t.result for t in w.threads}
@@ -178,6 +191,10 @@ class ThreadHarness:
         for name, kind, tok in plan:
             r = results.get(name)
             if r is None or r[0] == "aborted":
+                continue
+            if kind == "fail":
+                if not (r[0] == "exc" and isinstance(r[1], httpcore.ConnectError)):
+                    viol("refused-connect-outcome", f"thread {name}: the origin refused the connection, the call gave {r[0]}:{exc_class(r[1]) if r[0] == 'exc' else r[1]}")
                 continue
             if r[0] == "exc":
                 e = r[1]
